@@ -2,7 +2,7 @@ SPECIFICATION Spec
 CONSTANTS
   Defect = "none"
   N = 4
-  Datasets <- DatasetsGroup4
+  Datasets <- DatasetsGroup4s
   Spans <- SpansNone
   Origins <- OriginsAll
 CONSTRAINT Emit
